@@ -1,6 +1,9 @@
 package component
 
-import "io"
+import (
+	"errors"
+	"io"
+)
 
 var _ DataComponent = (*BundleContents)(nil)
 
@@ -15,7 +18,7 @@ func (BundleContents) ID() string {
 
 // ReadFrom implements DataComponent.
 func (b *BundleContents) ReadFrom(r io.Reader) (n int64, err error) {
-	panic("unimplemented")
+	return 0, errors.New("component: ReadFrom is not implemented")
 }
 
 // WriteTo implements DataComponent.
